@@ -73,3 +73,8 @@ package gcc
 //@   modifies *
 //@ func (*delayController).updateRTT
 //@   modifies *
+//@
+//@ # property C02: accepting a packet never indexes outside the pooled buffer, whatever the payload size; the reported size is the packet's
+//@ func (*LeakyBucketPacer).Write
+//@   modifies *
+//@   ensures size_reported: result1 == nil ==> result0 == header.MarshalSize() + len(payload)
